@@ -1485,7 +1485,11 @@ func (app *App) performSwitchover(clusterState map[string]*nodestate.NodeState, 
 	// check if need recover old master
 	oldMasterSlaveStatus, err := oldMasterNode.GetReplicaStatus()
 	app.logger.Info().Msgf("switchover: old master slave status: %#v", oldMasterSlaveStatus)
-	if err != nil || oldMasterSlaveStatus == nil || isSlavePermanentlyLost(oldMasterSlaveStatus, mostRecentGtidSet) {
+	// an old master which was not frozen successfully may still complete commits (e.g. ones stuck
+	// waiting for a semi-sync ACK are released when it is turned into a replica), so the replica
+	// status taken now proves nothing: it has to pass its own recovery check
+	oldMasterFrozen := slices.Contains(frozenActiveNodes, oldMaster)
+	if err != nil || oldMasterSlaveStatus == nil || !oldMasterFrozen || isSlavePermanentlyLost(oldMasterSlaveStatus, mostRecentGtidSet) {
 		err = app.SetRecovery(oldMaster)
 		if err != nil {
 			return fmt.Errorf("failed to set old master %s to recovery: %w", oldMaster, err)
